@@ -383,6 +383,79 @@ pub(crate) struct Socket {
     pub(crate) span: Span,
 }
 
+/// Verification hook (C19): a bare [`Socket`] (no actor, no QUIC endpoint) under which the
+/// real [`transports::Sender`] can be driven.
+#[cfg(all(feature = "verif-hooks", not(wasm_browser), with_crypto_provider))]
+impl Socket {
+    /// The given mapped-address maps; one `RemoteStateActor` inbox per `(endpoint id,
+    /// behaviour)` (0: room, 1: receiver dropped, 2: full; ids not listed have no actor); the address
+    /// watchers of `transports`.  The returned closure drains the ids whose inbox received a
+    /// `SendDatagram` (never the filler of a full inbox).
+    #[allow(clippy::type_complexity)]
+    pub(crate) fn verif_c19_new(
+        mapped_addrs: MappedAddrs,
+        inboxes: Vec<(EndpointId, u8)>,
+        transports: &Transports,
+    ) -> (Arc<Self>, Box<dyn FnMut() -> Vec<EndpointId> + Send>) {
+        let mut actors = concurrent_read_map::ConcurrentReadMap::default();
+        let mut receivers = Vec::new();
+        for (id, behaviour) in inboxes {
+            let (tx, rx) =
+                mpsc::channel::<RemoteStateMessage>(if behaviour == 2 { 1 } else { 64 });
+            if behaviour == 2 {
+                tx.try_send(RemoteStateMessage::NetworkChange { is_major: false })
+                    .expect("room for the filler");
+            }
+            actors.insert(id, tx);
+            if behaviour != 1 {
+                receivers.push((id, behaviour, rx));
+            }
+        }
+        let drain = Box::new(move || {
+            let mut out = Vec::new();
+            for (id, behaviour, rx) in receivers.iter_mut() {
+                while *behaviour == 0
+                    && let Ok(msg) = rx.try_recv()
+                {
+                    if matches!(msg, RemoteStateMessage::SendDatagram(..)) {
+                        out.push(*id);
+                    }
+                }
+            }
+            out
+        });
+        let tls_config = iroh_relay::tls::CaTlsConfig::embedded()
+            .client_config(iroh_relay::tls::default_provider())
+            .expect("infallible");
+        let sock = Arc::new(Socket {
+            remote_actors: actors.read_only(),
+            shutdown: ShutdownState::default(),
+            ipv6_reported: Arc::new(AtomicBool::new(false)),
+            mapped_addrs,
+            address_lookup: address_lookup::AddressLookupServices::default(),
+            relay_map: RelayMap::empty(),
+            address_lookup_user_data: RwLock::new(None),
+            configured_addrs: RwLock::new(BTreeSet::new()),
+            direct_addrs: DiscoveredDirectAddrs::default(),
+            net_report: Watchable::new((None, UpdateReason::None)),
+            dns_resolver: DnsResolver::new(),
+            metrics: EndpointMetrics::default(),
+            local_addrs_watch: transports.local_addrs_watch(),
+            home_relay_watch: transports.home_relay_watch(),
+            ip_bind_addrs: transports.ip_bind_addrs(),
+            tls_config,
+            hooks: EndpointHooksList::default(),
+            span: Span::none(),
+        });
+        (sock, drain)
+    }
+
+    /// Sets what [`Self::is_closed`] returns.
+    pub(crate) fn verif_c19_set_closed(&self, closed: bool) {
+        self.shutdown.closed.store(closed, Ordering::Relaxed);
+    }
+}
+
 impl Socket {
     /// Returns the relay endpoint we are connected to, that has the best latency.
     ///
@@ -437,6 +510,8 @@ impl Socket {
         endpoint_id: EndpointId,
         message: RemoteStateMessage,
     ) -> Result<(), RemoteStateMessage> {
+        #[cfg(feature = "verif-hooks")]
+        crate::verif_hooks::c19::remote_msg(endpoint_id, &message);
         let Some(sender) = self.remote_actors.get(&endpoint_id) else {
             return Err(message);
         };
